@@ -6,6 +6,7 @@ c  each kernel / list operation computes the mathematical result: interpreted on
    low degree under an adversarial thread-id assignment and compared with sympy polynomial arithmetic
 
 a (added)  every fixed-width integer type that carries slot numbers / packed indices can hold the largest value at the table degree
+c (round 4)  powers with an exponent above the truncation degree (constant term keeps them alive); evaluate hands every block up to the degree to the evaluator
 """
 from __future__ import annotations
 
@@ -247,15 +248,22 @@ def _c_facade_evaluate(chk):
         return sp.Symbol("VALUE")
 
     pt = to_obj_array([sp.Symbol(f"a{i}", real=True) + sp.I * sp.Symbol(f"b{i}", real=True) for i in range(6)])
-    svc = SymObj(ClassRef(mod, cls), {"poly_H": sp.Symbol("POLY_H"), "clmo": sp.Symbol("CLMO"), "_ndof": 3, "ndof": 3}, "hamdyn")
+    blocks = [sp.Symbol(f"H_BLOCK{d}") for d in range(4)]          # a degree-3 Hamiltonian: four homogeneous blocks
+    svc = SymObj(ClassRef(mod, cls), {"poly_H": list(blocks), "_poly_H": list(blocks), "clmo": sp.Symbol("CLMO"), "_clmo": sp.Symbol("CLMO"), "_ndof": 3, "ndof": 3,
+                                      "_degree": 3, "degree": 3}, "hamdyn")
     ip = Interp(overrides={"_polynomial_evaluate": ev})
     ip.strict_real_casts = True
-    out = ip.apply(ip.getattr(svc, "evaluate"), [pt.copy()], {})
+    try:
+        out = ip.apply(ip.getattr(svc, "evaluate"), [pt.copy()], {})
+    except OutsideFragment as exc:
+        raise AnalysisError(f"_HamiltonianDynamicsService.evaluate outside fragment: {exc}")
     a = seen.get("args", [None, None, None])
     got = list(to_obj_array(a[1])) if a[1] is not None else None
-    chk.check(out == sp.Symbol("VALUE") and a[0] == sp.Symbol("POLY_H") and a[2] == sp.Symbol("CLMO") and got == list(pt), "C06.c", f"{HS_}::_HamiltonianDynamicsService.evaluate",
-              f"Hamiltonian.evaluate hands {got} to the evaluator for the complex point {list(pt)} (a cast to a real dtype keeps the real part only)",
-              sample="evaluate(z) = _polynomial_evaluate(poly_H, z, clmo) for complex z")
+    handed = list(a[0]) if isinstance(a[0], (list, tuple)) else a[0]
+    chk.check(out == sp.Symbol("VALUE") and handed == blocks and a[2] == sp.Symbol("CLMO") and got == list(pt), "C06.c", f"{HS_}::_HamiltonianDynamicsService.evaluate",
+              f"Hamiltonian.evaluate hands the blocks {handed} and the point {got} to the evaluator for the degree-3 Hamiltonian {blocks} at the complex point {list(pt)} "
+              f"(every block up to the degree belongs to the value; a cast to a real dtype keeps the real part only)",
+              sample="evaluate(z) = _polynomial_evaluate(all blocks of poly_H, z, clmo) for complex z")
     chk.count("functions partially evaluated")
 
 
@@ -495,7 +503,7 @@ def _c_lists(chk, tier):
                   sample=f"{label}: {{p,q}} truncated at {MD} includes {{p_{MD + 1}, q_1}}")
     Pw = mk("c", {0: {0}, 1: {1, 5}})
     Pwe = pr.list_to_expr(Pw, clmo)
-    for k in (0, 1, 2, 3):
+    for k in sorted({0, 1, 2, 3, MD + 1, MD + 2}):      # exponents above the truncation degree: the constant term keeps p^k alive
         W = ip().call_function(PO, "_polynomial_power", [Pw, k, MD, psi, clmo, enc])
         diff = sp.expand(pr.list_to_expr(W, clmo) - pr.truncate(Pwe ** k, MD))
         chk.check(diff == 0, "C06.c", f"{PO}::_polynomial_power[k={k}]", f"p^{k} (square-and-multiply) differs from the truncated power: {str(diff)[:160]}", sample=f"p^{k} truncated at {MD}")
